@@ -20,15 +20,19 @@ import random, itertools
 from harness import common as H
 
 PROP = "C06"
-STYLES = ("and", "andr", "andh", "tf", "lf", "lff")
-NEST = ("andr", "andh")          # differ from "and" only where three operands are co-iterated
+STYLES = ("and", "andr", "andh", "andi", "tf", "lf", "lff")
+NEST = ("andr", "andh", "andi")          # differ from "and" only where three operands are co-iterated
 RULE = ("cases = (expression: 1-3 operands over 1-3 index variables, every variable in some operand, any subset "
         "of the variables as output; loop order: every permutation of the loop variables; tiling: any subset of "
         "the variables split uniformly with steps 1..n+1, the two halves placed anywhere in the loop order; "
         "intersection style: (a & b) & c | a & (b & c) | a & bc with bc = b & c hoisted out of the loops | "
         "Fiber.intersection two-finger | leader-follower | leader-follower with an explicit emptiness filter; operand "
         "tensors with a declared shape or WITHOUT one (estimated rank shapes = the active ranges the tiling clips to); "
-        "operand trees incl. explicit zeros, empty sub-fibers, empty operands). small scope "
+        "operand trees incl. explicit zeros, empty sub-fibers, empty operands; set-up variants that must not change "
+        "the result: format U on any subset of the operand / output ranks (Tensor.setFormat, or a free fiber's own rank "
+        "attributes), per-operand declared shapes larger than needed, fibers built with default 7 inside tensors of default "
+        "0, values written as floats / bools, operand objects already used by an earlier run, the program executed twice "
+        "into the same output (2 x dense), coordinates 0, 9, 10, 11, 100). small scope "
         "(seed-independent): every expression shape x every loop order x every style on a fixed operand set, and "
         "every pair of leaf fibers over 3 coordinates x {absent, 0, 1, -1} for dot / element-wise / accumulate; every "
         "triple of leaf fibers over 2 coordinates for the right-nested / hoisted three-factor product; every 2-row 0/1 "
@@ -115,6 +119,56 @@ def mk_case(nv, ops, out, order, tiles, style, n, trees, tag="", declared=True):
             "style": style, "n": n, "tag": tag, "declared": bool(declared)}
 
 
+def _widen(rng, c):
+    """variants of HOW the same program is set up and run (they must not change its result):
+    rank formats, declared shapes, fiber-level defaults, value kinds, reuse of the operand objects"""
+    var = {}
+    k = len(c["ops"])
+    opranks, zranks = plan(c)
+    r = rng.random
+    if r() < 0.3:
+        var["fmtU"] = [[l for l in t if r() < 0.5] for t in opranks]
+    if zranks and r() < 0.15:
+        var["zU"] = [l for l in zranks if r() < 0.6]
+    if c["declared"] and r() < 0.2:
+        var["shapes"] = [c["n"] + rng.choice([0, 2, 5]) for _ in range(k)]
+    if r() < 0.1:
+        var["fdefault"] = 7
+    if r() < 0.15:
+        var["reps"] = 2
+    if r() < 0.15:
+        var["warm"] = True
+    vk = rng.choice(["int"] * 4 + ["float", "bool"])
+    if vk != "int":
+        var["vkind"] = vk
+    if not c["tiles"] and all(len(o["ranks"]) == 1 for o in c["ops"]) and r() < 0.3:
+        var["bare"] = True
+        var.pop("fdefault", None)   # a free fiber's own default IS its default: keep it 0 (sum of products)
+    if var:
+        c["var"] = var
+    return c
+
+
+def _remap(tree, depth, cmap):
+    if depth == 1:
+        return [[cmap[c], v] for c, v in tree]
+    return [[cmap[c], _remap(sub, depth - 1, cmap)] for c, sub in tree]
+
+
+CMAP = [0, 9, 10, 11, 100]          # multi-digit coordinates: 9 < 10 < 11 < 100 numerically, not as strings
+
+
+def _sparse_coords(c):
+    """the same program over the coordinates 0, 9, 10, 11, 100 (shape 101 / largest coordinate + 1)"""
+    k = c["n"]
+    cm = CMAP[:k]
+    for o in c["ops"]:
+        o["t"] = _remap(o["t"], len(o["ranks"]), cm)
+    c["univ"] = cm
+    c["n"] = cm[-1] + 1
+    return c
+
+
 def _rand_tree(rng, depth, n, sparse=None):
     p_abs = rng.choice([0.2, 0.4, 0.6]) if sparse is None else sparse
     return H.gen_tree(rng, depth, n, pool=(1, 2, -1, -2, 3), dflt=0, p_absent=p_abs, p_default=0.12,
@@ -132,7 +186,7 @@ def gen(seed, tier):
             for si, style in enumerate(STYLES):
                 if style in NEST and len(ops) < 3:
                     continue
-                if quick and (oi + si) % 2 == 1 and nv == 3:
+                if quick and (oi + si) % 3 and nv == 3:
                     continue
                 n = 3
                 trees = [_rand_tree(fixed, len(r), n) for r in ops]
@@ -143,9 +197,9 @@ def gen(seed, tier):
     for ia, a in enumerate(fibs):
         for ib, b in enumerate(fibs):
             for si, style in enumerate(("and", "tf", "lf", "lff")):
-                if not quick or (ia + ib + si) % 2 == 0:
-                    yield mk_case(1, [[0], [0]], [], [0], [], style, 3, [a, b], "dot-exh")
                 if not quick or (ia + ib + si) % 4 == 0:
+                    yield mk_case(1, [[0], [0]], [], [0], [], style, 3, [a, b], "dot-exh")
+                if not quick or (ia + ib + si) % 4 == 2:
                     yield mk_case(1, [[0], [0]], [0], [0], [], style, 3, [a, b], "ew-exh")
     # cancellation to zero inside a reduction that is outer to the output loop: Z_m = sum_k A_km
     cols = list(H.all_leaf_fibers(2, [0, 1, -1]))
@@ -160,7 +214,7 @@ def gen(seed, tier):
     for a in small:
         for b in small:
             for c in small:
-                for style in ("andr", "andh"):
+                for style in NEST:
                     yield mk_case(1, [[0], [0], [0]], [], [0], [], style, 2, [a, b, c], "nest-exh")
     # the m-invariant factors co-iterated outside the m loop: Z_m = sum_k A_mk B_k C_k, untiled and K tiled
     rows = list(H.all_leaf_fibers(3, [1]))
@@ -170,7 +224,7 @@ def gen(seed, tier):
             A = [[m, r] for m, r in enumerate((r0, r1)) if r]
             for vi, b in enumerate(vecs):
                 c = vecs[(vi + i0 + i1) % 3]
-                style = NEST[(i0 + i1 + vi) % 2]
+                style = NEST[(i0 + i1 + vi) % 3]
                 yield mk_case(2, [[0, 1], [1], [1]], [0], [0, 2], [], style, 3, [A, b, c], "hoist-exh")
                 if not quick or (i0 + i1 + vi) % 2 == 0:
                     yield mk_case(2, [[0, 1], [1], [1]], [0], [0, 3, 2], [[1, 2]], style, 3, [A, b, c], "hoist-exh")
@@ -187,6 +241,43 @@ def gen(seed, tier):
             A = [[0, r0], [1, r1]]
             step = 1 + (i0 + 2 * i1) % 4
             yield mk_case(2, [[0, 1], [1]], [0], [0, 3, 2], [[1, step]], "and", 4, [A, bvec], "estim-exh", declared=False)
+    # rank formats: every choice of "U" on the ranks of the operands and of the output, for small kernels
+    fa = [[0, 2], [2, -1]]
+    fb = [[1, 3], [2, 1]]
+    fA = [[0, [[1, 2]]], [2, [[0, 1], [2, -1]]]]
+    fB = [[0, [[0, 1]]], [1, [[1, 1], [2, 2]]], [2, [[0, 3]]]]
+    fmt_progs = [(1, [[0], [0]], [], [0], [fa, fb]), (1, [[0], [0]], [0], [0], [fa, fb]),
+                 (2, [[0, 1], [1]], [0], [0, 2], [fA, fb]), (2, [[0, 1], [1]], [0], [2, 0], [fA, fb]),
+                 (3, [[0, 1], [1, 2]], [0, 2], [0, 2, 4], [fA, fB]), (3, [[0, 1], [1, 2]], [0, 2], [2, 4, 0], [fA, fB])]
+    fi = 0
+    for nv, ops, out, order, trees in fmt_progs:
+        base = mk_case(nv, ops, out, order, [], "and", 3, trees, "fmt-exh")
+        opr, zr = plan(base)
+        slots = [(i, l) for i, t in enumerate(opr) for l in t] + [("z", l) for l in zr]
+        for mask in range(1, 2 ** len(slots)):
+            fi += 1
+            if quick and len(slots) > 4 and fi % 2:
+                continue
+            chosen = [slots[j] for j in range(len(slots)) if mask >> j & 1]
+            for si, style in enumerate(("and", "tf", "lf", "lff")):
+                if quick and len(slots) > 3 and (fi + si) % 2:
+                    continue
+                c = mk_case(nv, ops, out, order, [], style, 3, trees, "fmt-exh", declared=(fi + si) % 4 < 2)
+                c["var"] = {"fmtU": [[l for (i, l) in chosen if i == k] for k in range(len(ops))],
+                            "zU": [l for (i, l) in chosen if i == "z"]}
+                yield c
+                if nv == 1:             # the same with free fibers carrying their own rank attributes
+                    c2 = mk_case(nv, ops, out, order, [], style, 3, trees, "fmt-exh")
+                    c2["var"] = dict(c["var"], bare=True)
+                    yield c2
+    # the same operand objects used twice (an earlier run, or a second accumulation into the same output)
+    for ia, a in enumerate(small):
+        for ib, b in enumerate(small):
+            for si, style in enumerate(("and", "lf", "lff", "tf")):
+                for out in ([], [0]):
+                    c = mk_case(1, [[0], [0]], out, [0], [], style, 2, [a, b], "reuse-exh")
+                    c["var"] = {"reps": 2} if (ia + ib + si) % 2 else {"warm": True}
+                    yield c
     # --- 3. named kernels: all loop orders, every tiling of one variable with every step, all placements
     rng = random.Random(seed)
     reps = 2 if quick else 30
@@ -205,8 +296,13 @@ def gen(seed, tier):
                         trees = [_rand_tree(rng, len(r), n) for r in ops]
                         if rng.random() < 0.08:
                             trees[rng.randrange(len(trees))] = []
-                        yield mk_case(nv, [_perm(rng, r) for r in ops], out, order, tiles,
-                                      rng.choice(STYLES), n, trees, name, declared=rng.random() < 0.5)
+                        c = mk_case(nv, [_perm(rng, r) for r in ops], out, order, tiles,
+                                    rng.choice(STYLES), n, trees, name, declared=rng.random() < 0.5)
+                        if rng.random() < 0.12 and nv <= 2:
+                            c = _sparse_coords(c)
+                            if c["tiles"]:
+                                c["tiles"] = [[c["tiles"][0][0], rng.choice([1, 2, 9, 10, 11, 50, 101])]]
+                        yield _widen(rng, c)
     # --- 4. random programs: random expression, order, tiling of any subset, style
     nrand = 2500 if quick else 250000
     for i in range(nrand):
@@ -218,8 +314,12 @@ def gen(seed, tier):
         r = rng.random()
         if r < 0.05:
             trees[rng.randrange(len(trees))] = []
-        yield mk_case(nv, [_perm(rng, r) for r in ops], out, order, tiles, rng.choice(STYLES), n, trees, "random",
-                      declared=rng.random() < 0.5)
+        c = mk_case(nv, [_perm(rng, r) for r in ops], out, order, tiles, rng.choice(STYLES), n, trees, "random",
+                    declared=rng.random() < 0.5)
+        if rng.random() < 0.1 and nv <= 2:
+            c = _sparse_coords(c)
+            c["tiles"] = [[v, rng.choice([1, 2, 9, 10, 11, 50, 101])] for v, _ in c["tiles"]]
+        yield _widen(rng, c)
 
 
 # ---------------------------------------------------------------------------------------
@@ -285,6 +385,8 @@ def render(case):
             # a & (b & c): the right operand is a lazy fiber; "andh" builds it once, outside all loops,
             # when its operands are still the root fibers (loop-invariant)
             right, rpat = left_nest(cur[1:]), left_pat(nxt[1:])
+            if style == "andi":         # the lazy right operand comes from Fiber.intersection
+                right, rpat = "Fiber.intersection(" + ", ".join(cur[1:]) + ")", "(" + ", ".join(nxt[1:]) + ")"
             if style == "andh" and all(pos[i] == 0 for i in parts[1:]):
                 lines.insert(hoist_at, f"    h{l} = {right}")
                 hoist_at += 1
@@ -319,44 +421,102 @@ def well_formed(case):
     return all(l in used for l in case["order"]) and len(set(case["order"])) == len(case["order"])
 
 
+def _conv(v, vk):
+    """value kinds: the same integer written as a float (exact) or, for 0/1, as a bool"""
+    if vk == "float":
+        return float(v)
+    if vk == "bool" and v in (0, 1):
+        return bool(v)
+    return v
+
+
+def _build(tree, depth, vk, fdef):
+    F = H.ft().Fiber
+    if depth == 1:
+        return F([c for c, _ in tree], [_conv(v, vk) for _, v in tree], default=fdef)
+    return F([c for c, _ in tree], [_build(s, depth - 1, vk, fdef) for _, s in tree], default=fdef)
+
+
+def _canon(snap):
+    """integral floats (results of exact float arithmetic) read as the integers they are"""
+    if isinstance(snap, list):
+        return [_canon(x) for x in snap]
+    if isinstance(snap, dict) and set(snap) == {"float"}:
+        x = float.fromhex(snap["float"])
+        return int(x) if x == int(x) else snap
+    return snap
+
+
+class _Root:
+    """an operand that is a bare fiber (no tensor): the program's `A.getRoot()` returns it"""
+    def __init__(self, fiber):
+        self.fiber = fiber
+
+    def getRoot(self):
+        return self.fiber
+
+
 def prepare(case):
     """build, tile and swizzle the operand tensors with the real library; make the output tensor"""
     ft = H.ft()
     n = case["n"]
     tiles = case["tiles"]
+    var = case.get("var") or {}
+    vk, fdef = var.get("vkind", "int"), var.get("fdefault", 0)
     opranks, zranks = plan(case)
     tensors = []
-    for op, target in zip(case["ops"], opranks):
+    for i, (op, target) in enumerate(zip(case["ops"], opranks)):
         d = len(op["ranks"])
-        f = H.build_fiber(op["t"], d, 0)
+        f = _build(op["t"], d, vk, fdef)
+        fmtU = (var.get("fmtU") or [[]] * len(opranks))[i]
+        if var.get("bare"):             # free fiber carrying its own rank attributes
+            if target and target[0] in fmtU:
+                f.getRankAttrs().setFormat("U")
+                f.getRankAttrs().setShape(n)
+            tensors.append(_Root(f))
+            continue
         if case.get("declared", True):
-            T = ft.Tensor.fromFiber(rank_ids=[str(v) for v in op["ranks"]], fiber=f, shape=[n] * d, default=0)
+            sh = (var.get("shapes") or [n] * len(opranks))[i]
+            T = ft.Tensor.fromFiber(rank_ids=[str(v) for v in op["ranks"]], fiber=f, shape=[sh] * d, default=0)
         else:       # no authoritative shape: the rank shapes (hence the active ranges) are estimated
             T = ft.Tensor.fromFiber(rank_ids=[str(v) for v in op["ranks"]], fiber=f, default=0)
         for v, step in tiles:
             if v in op["ranks"]:
                 T = T.splitUniform(step, rankid=str(v))
         T = T.swizzleRanks([lname(l, tiles) for l in target])
+        for l in target:
+            if l in fmtU:
+                T.setFormat(lname(l, tiles), "U")
         tensors.append(T)
-    Z = ft.Tensor(rank_ids=[lname(l, tiles) for l in zranks], default=0)
-    return Z, tensors
+
+    def mkz():
+        Z = ft.Tensor(rank_ids=[lname(l, tiles) for l in zranks], default=0)
+        for l in zranks:
+            if l in (var.get("zU") or []):
+                Z.setFormat(lname(l, tiles), "U")
+        return Z
+    return mkz, tensors
 
 
 def run(case):
     ft = H.ft()
     opranks, zranks = plan(case)
     case["opranks"], case["zranks"] = opranks, zranks
-    src = render(case)
-    case["src"] = src
+    src = render(case)             # (not stored in the case: `render(case)` reproduces the program text)
+    var = case.get("var") or {}
     side = {}
     try:
-        Z, tensors = prepare(case)
+        mkz, tensors = prepare(case)
         pre = [H.snapshot(T.getRoot()) for T in tensors]
         env = {"Fiber": ft.Fiber, "Payload": ft.Payload}
         exec(compile(src, "<kernel>", "exec"), env)
-        env["kernel"](Z, *tensors)
+        if var.get("warm"):             # the same operand objects were already used by an earlier run
+            env["kernel"](mkz(), *tensors)
+        Z = mkz()
+        for _ in range(var.get("reps", 1)):     # reps = 2: accumulate a second time into the same output
+            env["kernel"](Z, *tensors)
         root = Z.getRoot()
-        case["impl"] = {"z": H.snapshot(root), "ops": pre}
+        case["impl"] = {"z": _canon(H.snapshot(root)), "ops": [_canon(x) for x in pre]}
         side["operands_unchanged"] = pre == [H.snapshot(T.getRoot()) for T in tensors]
     except Exception as e:      # a crash of a legal program is an observation
         case["impl"] = {"z": None, "ops": []}
@@ -422,7 +582,7 @@ def extra_evidence(results):
         e = (c["nvars"], tuple(tuple(sorted(o["ranks"])) for o in c["ops"]), tuple(c["out"]))
         exprs.add(e)
         progs.add((e, tuple(c["order"]), tuple(tuple(t) for t in c["tiles"]), c["style"]))
-        b = c["tag"] if c["tag"] in ("shape", "dot-exh", "ew-exh", "cancel-exh", "nest-exh", "hoist-exh", "estim-exh", "random") else "named"
+        b = c["tag"] if c["tag"] in ("shape", "dot-exh", "ew-exh", "cancel-exh", "nest-exh", "hoist-exh", "estim-exh", "fmt-exh", "reuse-exh", "random") else "named"
         blocks[b] = blocks.get(b, 0) + 1
     return {"distinct_expressions": len(exprs), "distinct_programs": len(progs), "generator_blocks": blocks}
 
